@@ -42,6 +42,7 @@ pub enum K {
     Pushfq,
     Xgetbv,
     MovFromCs,
+    Sgdt,
     /// popfq intercepted in single-step mode (operand in `val`; not executed when `capture_popfq` is set)
     Popfq,
 }
@@ -117,6 +118,10 @@ pub struct Regs {
     pub xgetbv_override: Option<u64>,
     /// single-step mode: reads of CS report the emulated selector `sreg[1]`
     pub emulate_cs_reads: bool,
+    /// ltr marks the descriptor busy in the table the emulated GDTR points to
+    pub emulate_ltr_busy: bool,
+    /// single-step mode: sgdt stores the emulated GDTR
+    pub emulate_sgdt: bool,
     /// single-step mode: other RFLAGS bits (VIF, VIP, AC, ID, IOPL, NT) the emulated pushfq reports as set
     pub pushfq_or: u64,
     /// single-step mode: intercept popfq, record its operand and skip it (the operand becomes the next override)
@@ -142,6 +147,8 @@ pub static mut REGS: Regs = Regs {
     rflags_override: None,
     xgetbv_override: None,
     emulate_cs_reads: false,
+    emulate_ltr_busy: false,
+    emulate_sgdt: false,
     pushfq_or: 0,
     capture_popfq: false,
 };
@@ -545,6 +552,16 @@ unsafe fn emulate(ctx: &Ctx) -> bool {
                         let sel = if isreg { ctx.get(rm) & 0xffff } else { core::ptr::read_unaligned(ea as *const u16) as u64 };
                         ev.val = sel;
                         r.tr = sel as u16;
+                        // ltr also WRITES memory: it marks the TSS descriptor busy in the GDT. Emulated against the emulated
+                        // GDTR when a test asks for it (the GDT then is ordinary memory of this process)
+                        if r.emulate_ltr_busy {
+                            let (limit, base) = r.gdtr;
+                            let idx = (sel >> 3) as u64;
+                            if base != 0 && 8 * idx + 7 <= limit as u64 {
+                                let d = (base + 8 * idx) as *mut u64;
+                                core::ptr::write_volatile(d, core::ptr::read_volatile(d) | (1 << 41));
+                            }
+                        }
                         len = p + l;
                     } else {
                         return false;
@@ -707,6 +724,36 @@ extern "C" fn handler(sig: i32, info: *mut libc::siginfo_t, uc: *mut libc::c_voi
                         ev.len = (q + 2) as u8;
                         push_event(ev);
                         continue;
+                    }
+                }
+                // sgdt m (0F 01 /0) is unprivileged (without UMIP) and would report the host's GDTR: with an emulated GDTR it
+                // is emulated here
+                if regs().emulate_sgdt {
+                    let mut q = 0usize;
+                    let mut b = *(rip as *const u8);
+                    let mut rex = 0u8;
+                    if b & 0xf0 == 0x40 {
+                        rex = b;
+                        q += 1;
+                        b = *(rip as *const u8).add(q);
+                    }
+                    if b == 0x0f && *(rip as *const u8).add(q + 1) == 0x01 {
+                        let m = *(rip as *const u8).add(q + 2);
+                        if m >> 6 != 3 && (m >> 3) & 7 == 0 {
+                            let (_reg, _isreg, _rm, ea, l) = modrm((rip as *const u8).add(q + 2), rex, &ctx, rip + q as u64 + 2);
+                            let (limit, base) = regs().gdtr;
+                            core::ptr::write_unaligned(ea as *mut u16, limit);
+                            core::ptr::write_unaligned((ea + 2) as *mut u64, base);
+                            ctx.set_rip(rip + (q + 2 + l) as u64);
+                            let mut ev = Event::empty();
+                            ev.kind = K::Sgdt;
+                            ev.n = limit as u32;
+                            ev.val = base;
+                            ev.rip = rip;
+                            ev.len = (q + 2 + l) as u8;
+                            push_event(ev);
+                            continue;
+                        }
                     }
                 }
                 // xgetbv (0F 01 D0) is unprivileged too: with an emulated XCR0 chosen by the test it is emulated here
@@ -899,6 +946,7 @@ pub fn fmt_event(e: &Event) -> String {
         K::Invlpgb => format!("invlpgb rax={:#x} ecx={:#x} edx={:#x}", e.val, e.val2, e.val3),
         K::Xgetbv => format!("xgetbv ecx={:#x} -> {:#x}", e.n, e.val),
         K::MovFromCs => format!("mov r, cs -> {:#x}", e.val),
+        K::Sgdt => format!("sgdt -> limit={:#x} base={:#x}", e.n, e.val),
         K::In => format!("in{} dx={:#x} -> {:#x}", e.width * 8, e.n, e.val),
         K::Out => format!("out{} dx={:#x} val={:#x}", e.width * 8, e.n, e.val),
         K::Lgdt | K::Lidt => format!("{:?} limit={:#x} base={:#x}", e.kind, e.n, e.val),
